@@ -374,6 +374,13 @@ def agent_spec(key, style):
 GEN_STYLES = ['legacy-steps', 'legacy-in-processes', 'flow-chain', 'flow-layer', 'legacy-reaper', 'flow-divider']
 
 
+def jsonable_keys(d):
+    """nested dict with leaves replaced by their class name (processes / steps are compared by place and kind)"""
+    if isinstance(d, dict):
+        return {k: jsonable_keys(v) for k, v in d.items()}
+    return type(d).__name__
+
+
 def check_generated(case):
     """steps that join (or exist) through structural updates run in every later step phase, in the documented order:
     legacy derivers one at a time in declaration order (so z == y + 1 == 2x + 1 after every phase), a flow chain likewise,
@@ -387,9 +394,19 @@ def check_generated(case):
     if 'flow' in first:
         kw['flow'] = {'agents': {'a0': first['flow']}}
     try:
-        eng = Engine(processes={'spawner': GSpawner({'script': script}), 'agents': {'a0': first['processes']}},
-                     topology={'spawner': {'agents': ('agents',)}, 'agents': {'a0': first['topology']}},
-                     display_info=False, emitter='null', **kw)
+        comp = None
+        if case.get('via_composite'):
+            # the engine is built from a Composite (whose flow may be empty at construction): what the engine publishes is
+            # also written back into that Composite
+            from vivarium.core.composer import Composite
+            comp = Composite({'processes': {'spawner': GSpawner({'script': script}), 'agents': {'a0': first['processes']}},
+                              'topology': {'spawner': {'agents': ('agents',)}, 'agents': {'a0': first['topology']}},
+                              'steps': kw.get('steps', {}), 'flow': kw.get('flow', {})})
+            eng = Engine(composite=comp, display_info=False, emitter='null')
+        else:
+            eng = Engine(processes={'spawner': GSpawner({'script': script}), 'agents': {'a0': first['processes']}},
+                         topology={'spawner': {'agents': ('agents',)}, 'agents': {'a0': first['topology']}},
+                         display_info=False, emitter='null', **kw)
         styles = {'a0': case['a0']}
         born = {'a0': 0}
         prev_y = {}
@@ -440,6 +457,17 @@ def check_generated(case):
                     fails.append('tick %d: agent %s (%s): z=%r but y=%r: `succ` must run after `double` in every phase'
                                  % (tick, name, style, z, y))
                 prev_y[name] = y
+        if comp is not None and not fails:
+            def strip(d):
+                if isinstance(d, dict):
+                    out = {k: strip(v) for k, v in d.items()}
+                    return {k: v for k, v in out.items() if not (isinstance(v, dict) and not v)}
+                return d
+            want_flow = strip(eng.state.get_flow() or {})
+            for part, got in (('flow', strip(comp['flow'])), ('engine.flow', strip(eng.flow))):
+                if got != want_flow:
+                    fails.append('after the history the %s published for the Composite the engine was built from is %r, the '
+                                 'hierarchy holds %r' % (part, got, want_flow))
     except Exception as e:
         fails.append('engine raised %s: %s' % (type(e).__name__, str(e)[:200]))
     return fails[:3]
@@ -459,7 +487,7 @@ def gen_generated(rng):
             ops.append(['delete', alive.pop(0)])
         if ops:
             script[str(tick)] = ops
-    return {'a0': rng.choice(GEN_STYLES), 'script': script, 'ticks': 6}
+    return {'a0': rng.choice(GEN_STYLES), 'script': script, 'ticks': 6, 'via_composite': rng.random() < 0.5}
 
 
 def check_c04(scn, n_perms):
@@ -529,6 +557,8 @@ def main():
     gcases = [{'a0': 'legacy-steps', 'script': {'1': [['generate', 'a1', st]]}, 'ticks': 5} for st in GEN_STYLES]
     gcases += [{'a0': 'legacy-reaper', 'script': {'1': [['generate', 'a1', st], ['generate', 'a2', 'legacy-steps']]}, 'ticks': 5}
                for st in ('legacy-steps', 'legacy-reaper', 'flow-chain')]
+    gcases += [{'a0': 'legacy-steps', 'script': {'1': [['generate', 'a1', 'flow-chain']]}, 'ticks': 4, 'via_composite': True},
+               {'a0': 'legacy-in-processes', 'script': {'2': [['generate', 'a1', 'flow-layer']]}, 'ticks': 4, 'via_composite': True}]
     gcases += [{'a0': 'flow-divider', 'script': {}, 'ticks': 5}, {'a0': 'legacy-steps', 'script': {'1': [['generate', 'a1', 'flow-divider']]}, 'ticks': 6}]
     gcases += [gen_generated(rng) for _ in range(20 if a.tier == 'quick' else 400)]
     for gi, case in enumerate(gcases):
